@@ -225,7 +225,7 @@ func runC06(rc *RunCtx) {
 	// probes are pending: the handlers keep absorbing them until their deadlines.
 	stopEarly := G.Draw(5) == 0
 	if stopEarly {
-		at := T * time.Duration(1+G.Draw(8)) / 10
+		at := T*time.Duration(1+G.Draw(8))/10 + T/300 // off the T/50 grid the replays connect on
 		simrt.GoNamed("c06-listener-close", func() {
 			simrt.Sleep(at)
 			srv.Stop()
@@ -364,8 +364,10 @@ func runC06(rc *RunCtx) {
 			}
 			continue
 		}
-		if stopEarly && !p.c.Rec.Accepted {
-			continue // arrived after the listener was closed: never served
+		if stopEarly && !srv.Handled[p.c.Rec.ID] {
+			// arrived after the listener was closed, or was taken off the socket in the
+			// very instant of the close and closed unserved by the closing listener
+			continue
 		}
 		srvEnd := p.c.Peer()
 		finRecv, gotFin := p.c.Has("fin-recv")
@@ -413,8 +415,8 @@ func runC06(rc *RunCtx) {
 		}
 		// authenticated, then invalid / incomplete: must be drained, not closed, while the client is open
 		rc.Probe("postauth:" + p.postAuth + ":" + cls)
-		if p.postAuth == "incomplete" && p.behav != 2 && ended && !(gotRst && endAt == rstRecv) && len(srvEnd.Wrote) == 0 &&
-			endAt >= p.connectAt+srv.Timeout && endAt <= p.connectAt+srv.Timeout+skew && int(srvEnd.NRead) == p.sent {
+		if p.postAuth == "incomplete" && ended && !(gotRst && endAt == rstRecv) && len(srvEnd.Wrote) == 0 &&
+			endAt >= p.connectAt+srv.Timeout && endAt <= p.connectAt+srv.Timeout+skew && int(srvEnd.NRead) <= p.sent {
 			// An intact header whose address chunk never arrives is an unfinished
 			// handshake, not a stream that turned invalid: giving up silently at the
 			// handshake deadline (first sentence of the statement) is as good as
